@@ -21,6 +21,20 @@ use vibesql_types::SqlValue;
 
 // ---------------------------------------------------------------- helpers
 
+static T_EXEC: std::sync::atomic::AtomicU64 = std::sync::atomic::AtomicU64::new(0);
+static T_MODEL: std::sync::atomic::AtomicU64 = std::sync::atomic::AtomicU64::new(0);
+static T_SLOWEST: std::sync::Mutex<(u64, String)> = std::sync::Mutex::new((0, String::new()));
+fn timed<T>(label: &str, f: impl FnOnce() -> T) -> T {
+    let t = std::time::Instant::now();
+    let r = f();
+    let us = t.elapsed().as_micros() as u64;
+    T_EXEC.fetch_add(us, std::sync::atomic::Ordering::Relaxed);
+    let mut g = T_SLOWEST.lock().unwrap();
+    if us > g.0 {
+        *g = (us, label.to_string());
+    }
+    r
+}
 fn hx(s: &str) -> String {
     sx::hex_str(s)
 }
@@ -170,8 +184,8 @@ impl Cached {
             _ => {}
         }
         self.effects.push(eff);
-        let a = self.db.exec_stmt(&stmt);
-        let b = self.twin.exec_stmt(&stmt);
+        let a = timed(sql, || self.db.exec_stmt(&stmt));
+        let b = timed(sql, || self.twin.exec_stmt(&stmt));
         (a, b)
     }
 
@@ -179,7 +193,7 @@ impl Cached {
         self.script.push(sql.to_string());
         self.effects.push(vec![]);
         let op_index = self.effects.len() - 1;
-        let twin = self.twin.exec(sql);
+        let twin = timed(sql, || self.twin.exec(sql));
         let stmt = match Db::parse(sql) {
             Ok(s) => s,
             Err(o) => return ReadResult { cached: o, twin, hit: false, inserted_at: None },
@@ -201,7 +215,7 @@ impl Cached {
         self.misses += 1;
         self.trace.push(format!("(get {})", hx(sql)));
         self.expect.push("miss".into());
-        let out = self.db.exec_stmt(&stmt);
+        let out = timed(sql, || self.db.exec_stmt(&stmt));
         if let Out::Rows(rows) = &out {
             use vibesql_catalog::{ColumnSchema, TableSchema};
             use vibesql_executor::schema::CombinedSchema;
@@ -257,7 +271,9 @@ impl Cached {
         if self.trace.is_empty() {
             return;
         }
+        let tm = std::time::Instant::now();
         let reply = model.ask(&format!("trace {} {}", self.max, self.trace.join(" ")));
+        T_MODEL.fetch_add(tm.elapsed().as_micros() as u64, std::sync::atomic::Ordering::Relaxed);
         let got: Option<Vec<String>> = model_list(&reply, "r").map(|v| v.iter().map(|x| x.to_string()).collect());
         rep.traces_validated += 1;
         if got.as_ref() != Some(&self.expect) {
@@ -1276,7 +1292,7 @@ fn main() {
 
     eprintln!("[c25] raw traces done {:?}", t_start.elapsed());
     // ---- 5. histories
-    let n_hist = args.n(200, 6000);
+    let n_hist = args.n(150, 6000);
     for i in 0..n_hist {
         // three of four histories stay inside the premise of the property (writes announced for
         // the table they change, base tables only); the others add views / cascades / rollbacks / DDL
@@ -1293,16 +1309,12 @@ fn main() {
             _ => "history_base_tables_only",
         };
         rep.count(class);
-        let len = if args.quick() { 40 } else { 80 };
-        let th = std::time::Instant::now();
+        let len = if args.quick() { 36 } else { 80 };
         run_history(&mut rng, &opts, len, &mut model, &mut rep, &format!("h{}", i));
-        if th.elapsed().as_secs_f64() > 1.5 {
-            eprintln!("[c25] slow history h{} ({}) {:?}", i, class, th.elapsed());
-        }
         if i == 0 {
             rep.sample(serde_json::json!({"kind": "history", "class": class, "length": len}));
         }
     }
-    eprintln!("[c25] histories done {:?}", t_start.elapsed());
+    eprintln!("[c25] histories done {:?}; engine exec {} ms, model trace {} ms, slowest {:?}", t_start.elapsed(), T_EXEC.load(std::sync::atomic::Ordering::Relaxed) / 1000, T_MODEL.load(std::sync::atomic::Ordering::Relaxed) / 1000, T_SLOWEST.lock().unwrap());
     std::process::exit(rep.finish());
 }
